@@ -29,7 +29,21 @@ def _c05(tier, seed):
     return ps + families.canaries_hash(ps)
 
 
+def _c07(tier, seed):
+    ps = families.c07(tier, seed)
+    return ps + families.canaries_clone(ps)
+
+
 PROPS = {
+    "C07": {
+        "family": _c07,
+        "bounds": {"quick": "structs named/tuple n<=3 all 2^n {own clone, method} x {Clone, Clone+Copy}; enums 1-4 variants x {Clone, Clone+Copy}",
+                   "thorough": "n<=5; +80 sampled enums"},
+        "trusted": ["vstd `cloned` as the spec of Clone::clone on a type parameter"],
+        "assumptions": ["clone_from is outside Verus' subset (dropped from the Verus copy, logged); decided by Kani for all ordered pairs (a, b) of the concrete twin",
+                        "once-ness observed through counted Clone impls of the field type (Kani)"],
+        "explanation": "generated Clone::clone verified verbatim (generic T: Clone) against the field-wise oracle; Kani: clone value + per-slot clone counts + clone_from for all (a,b) + Copy instantiation",
+    },
     "C05": {
         "family": _c05,
         "bounds": {"quick": "structs named/tuple n<=3 all 3^n {none,ignore,method}; enums 1-5 variants over {unit,tuple1,tuple2,named2,named3,tuple3}; field types u8,u16,u32,bool,K(abstract)",
